@@ -83,7 +83,8 @@ def gen_scenario(seed, index):
     mutated = False
     for _ in range(n):
         k = weighted(rng, [("repeat", 60), ("fail", 12), ("fault", 12), ("resolve", 6),
-                           ("display", 3), ("derive", 4), ("mutate", 3 if not mutated else 0.5)])
+                           ("display", 3), ("derive", 4), ("introspect", 5), ("abc", 3),
+                           ("mutate", 3 if not mutated else 0.5)])
         if k in ("repeat", "fail"):
             ops.append({"op": k, "i": rng.randrange(len(corpus))})
         elif k == "fault":
@@ -94,6 +95,12 @@ def gen_scenario(seed, index):
                         else rng.choice(["runtime", "type", "interrupt"])})
         elif k in ("resolve", "display"):
             ops.append({"op": k, "i": rng.randrange(len(corpus))})
+        elif k == "introspect":
+            ops.append({"op": "introspect",
+                        "what": rng.choice(["signature", "doc", "display_methods", "repr", "dir"])})
+        elif k == "abc":
+            # an unrelated ABC registration somewhere else in the process (bumps abc's cache token)
+            ops.append({"op": "abc"})
         elif k == "derive":
             # deriving a child (copy / variant / mixin combination) does not change f's own methods
             ops.append({"op": "derive", "how": rng.choice(["copy", "variant", "mixin"]),
@@ -209,6 +216,32 @@ def execute(scen):
                 stats["disturb"]["display_resolution"] = stats["disturb"].get("display_resolution", 0) + 1
             except Exception:  # noqa: BLE001
                 pass
+        elif k == "introspect":
+            import inspect
+
+            try:
+                with contextlib.redirect_stdout(io.StringIO()):
+                    what = op["what"]
+                    if what == "signature":
+                        str(inspect.signature(h.ov.dispatch))
+                        list(inspect.signature(h.ov.dispatch).parameters)
+                    elif what == "doc":
+                        h.ov.__doc__
+                        h.ov.dispatch.__doc__
+                    elif what == "display_methods":
+                        h.ov.display_methods()
+                    elif what == "repr":
+                        repr(h.ov), repr(h.ov.dispatch)
+                    else:
+                        dir(h.ov.dispatch)
+                stats["disturb"]["introspect:" + what] = stats["disturb"].get("introspect:" + what, 0) + 1
+            except Exception as e:  # noqa: BLE001
+                trace.append(["introspect-error", op["what"], type(e).__name__])
+        elif k == "abc":
+            import collections.abc
+
+            collections.abc.Sized.register(type(f"Unrelated{j}", (), {}))
+            stats["disturb"]["abc_register"] = stats["disturb"].get("abc_register", 0) + 1
         elif k == "derive":
             from ovld import Ovld
 
